@@ -47,6 +47,16 @@ func valuePool() []TV {
 	}
 }
 
+// values value.ToScalar accepts
+func goodValues() []TV {
+	return []TV{
+		{K: "str", S: "x"}, {K: "int", I: 1}, {K: "uint", U: 3}, {K: "bool", B: true}, {K: "bytes", S: "ab"},
+		{K: "float", U: uint64(math.Float32bits(1.5))}, {K: "double", U: f64one}, {K: "decimal", I: 314, P: 2},
+		{K: "leaflist", L: []TV{{K: "int", I: 1}, {K: "str", S: "x"}}}, {K: "leaflist"},
+		{K: "json", S: `{"a":1}`}, {K: "jsonietf", S: `[1,2]`},
+	}
+}
+
 // the short pool used by the grid (one representative per behaviour class)
 func gridValues() []TV {
 	return []TV{
@@ -259,10 +269,34 @@ func (g *gen) noti(targets []string, ts int64) *Noti {
 	return n
 }
 
+// emptyNameIngest: a cache in which a target is registered under the empty
+// name (outside the property; the model's joinPrefixAndPath panic is compared)
+func (g *gen) emptyNameIngest() Case {
+	r := g.r
+	targets := []string{"", "t1"}
+	c := Case{Family: "ingest-emptyname", Kind: "ingest", Targets: targets}
+	k := 1 + r.Intn(4)
+	for i := 0; i < k; i++ {
+		n := g.noti(targets, int64(1+i))
+		if r.Chance(2, 3) {
+			pf := &GPath{}
+			switch r.Pick(4, 2, 2) {
+			case 1:
+				pf.Origin = "o"
+			case 2:
+				pf.Elems = names(g.cleanName(true))
+			}
+			n.Prefix = pf
+		}
+		c.Ops = append(c.Ops, Op{K: "msg", N: n})
+	}
+	return c
+}
+
 func (g *gen) randomIngest() Case {
 	r := g.r
 	targets := []string{"t1", "t2"}
-	c := Case{Family: "ingest-random", Kind: "ingest", Targets: targets}
+	c := Case{Family: "ingest-random", Kind: "ingest", Targets: targets, NoEvent: r.Chance(1, 3)}
 	k := 2 + r.Intn(7)
 	ts := int64(1 + r.Intn(3))
 	var last *Noti
@@ -319,7 +353,7 @@ func gridSub(emit func(Case), thorough bool) {
 			for _, uo := range []bool{false, true} {
 				for _, ss := range subsets {
 					q := &Req{Recv: "msg", Kind: "subscribe", Prefix: pf, Mode: mode, UpdatesOnly: uo,
-						Subs: ss.p, HasSubs: ss.h, Peer: true, Targets: []string{"t1", "t2"}}
+						Subs: ss.p, HasSubs: ss.h, Peer: true, Targets: []string{"t1", "t2"}, Stats: uo}
 					emit(Case{Family: "sub-grid", Kind: "sub", Ops: []Op{{K: "req", Q: q}}})
 				}
 			}
@@ -350,6 +384,7 @@ func (g *gen) randomSub() Case {
 		q.Mode = int32(3 + r.Intn(5))
 	}
 	q.UpdatesOnly = r.Chance(1, 5)
+	q.Stats = r.Chance(1, 2)
 	k := r.Pick(1, 5, 3, 2)
 	for i := 0; i < k; i++ {
 		p := g.path(true, false)
@@ -387,7 +422,10 @@ func (g *gen) resp(emptyNames bool) *Resp {
 	nd := r.Pick(8, 3)
 	pool := valuePool()
 	for i := 0; i < nu; i++ {
-		u := Upd{Path: g.path(true, emptyNames), Val: pool[r.Intn(len(pool))]}
+		u := Upd{Path: g.path(r.Chance(1, 3), emptyNames), Val: pool[r.Intn(len(pool))]}
+		if r.Chance(3, 4) {
+			u.Val = goodValues()[r.Intn(len(goodValues()))]
+		}
 		if r.Chance(1, 12) {
 			u.Path = &GPath{}
 		}
@@ -446,9 +484,9 @@ func gridCli(emit func(Case)) {
 	prefixes := []*GPath{nil, {}, {Target: "t"}, {Origin: "o"}}
 	vals := []TV{{K: "nil"}, {K: "int", I: 1}, {K: "any"}}
 	for _, dt := range []string{"group", "single", "proto"} {
-		for _, qt := range []string{"once", "stream"} {
+		for _, qt := range []string{"once", "stream", "poll"} {
 			for _, ts := range []bool{false, true} {
-				if ts && dt != "group" {
+				if (ts || qt == "poll") && dt != "group" {
 					continue
 				}
 				for _, pf := range prefixes {
